@@ -30,6 +30,8 @@ EXPECTED_UNRESOLVED = {'slices_process_single_assignment_0', 'slices_process_sin
 FACTORY_SITE = 'transpiler_wrap_into_factory_1'
 CLS_WALRUS = 'ctx_adjuster_reaches_walrus_target'
 CLS_NONASSIGNABLE = 'store_placeholder_bound_to_unadjustable_expression'
+CLS_STORE_LIST = 'lists_list_display_in_store_position'
+CLS_APPEND_EXPR = 'lists_append_call_in_expression_position'
 # failure kinds that an ill-formed expression context can explain (anything else in the same case is NOT attributed)
 CTX_EXPLAINED = ('conversion-fails-after-transform_ast', 'compile-of-tree-fails', 'unparsed-text-does-not-parse',
                  'ctxOk-rejects-real-tree', 'reparse-differs')
@@ -60,6 +62,22 @@ def _strip_walrus(x):
             return _strip_walrus(x[3])
         return [_strip_walrus(e) for e in x]
     return x
+
+
+def source_classes(run, source):
+    """finding classes that are predicates of the source function `f` (evaluated by the Lean driver)"""
+    import ast, pyast
+    try:
+        fn = [n for n in ast.parse(source).body if isinstance(n, ast.FunctionDef) and n.name == 'f'][-1]
+        a = parse_sexp(run.drive(['c17.srcclass ' + pyast.Ser(fn).text()])[0])
+    except Exception:
+        return []
+    out = []
+    if a[0] == 'True':
+        out.append(CLS_STORE_LIST)
+    if a[1] == 'True':
+        out.append(CLS_APPEND_EXPR)
+    return out
 
 
 def build_programs(run):
@@ -205,6 +223,7 @@ def evaluate(run, recs, sources, label):
     erase_cache = {}
     args_sites = collections.Counter()
     hyp_unexplained = []
+    src_class = {}
     for r in recs:
         stage[r['stage']] += 1
         if r.get('error'):
@@ -235,7 +254,7 @@ def evaluate(run, recs, sources, label):
                 args_sites[(nm, bool(fl.get('dups')))] += 1
                 if nm != FACTORY_SITE or fl.get('dups'):
                     case_hyp.append((nm, 'argsOk=%s dups=%s shared=%s' % (fl.get('argsOk'), fl.get('dups'), fl.get('shared'))))
-        if case_hyp and not r['fails']:
+        if case_hyp and not r['fails'] and r['stage'] == 'done':
             # a violated hypothesis without any observable defect: still reported (the theorem does not cover this call)
             hyp_unexplained.append({'case': r['key'], 'calls': case_hyp[:3]})
         if not r['fails']:
@@ -258,6 +277,13 @@ def evaluate(run, recs, sources, label):
         cls = None
         if reasons and explained:
             cls = CLS_WALRUS if reasons == {CLS_WALRUS} else (CLS_NONASSIGNABLE if CLS_NONASSIGNABLE in reasons else None)
+        elif explained and 'L' in r['cfg'][1:] and sources.get(r['prog']):
+            # Feature.LISTS: classes decided by the Lean predicates on the SOURCE function
+            if r['prog'] not in src_class:
+                src_class[r['prog']] = source_classes(run, sources[r['prog']])
+            sc = src_class[r['prog']]
+            reasons.update(sc)
+            cls = sc[0] if sc else None
         for w, d in r['fails'][:1]:
             stats['failing:' + w.split(':')[0]] += 1
         case = {'program': sources.get(r['prog']), 'cfg': r['cfg'], 'key': r['key'], 'fails': [[w, str(d)[:400]] for w, d in r['fails'][:6]],
